@@ -271,7 +271,10 @@ func (fr *Frame) rpo() []*ssa.BasicBlock {
 	var dfs func(b *ssa.BasicBlock)
 	dfs = func(b *ssa.BasicBlock) {
 		seen[b] = true
-		for _, s := range b.Succs {
+		// successors in reverse: in the reversed post-order a loop's body then precedes its exit,
+		// so that the obligations of the body are not prefixed by the rest of the function
+		for i := len(b.Succs) - 1; i >= 0; i-- {
+			s := b.Succs[i]
 			if !seen[s] && !isBackEdge(b, s) {
 				dfs(s)
 			}
